@@ -1,0 +1,25 @@
+//go:build verif
+
+package mbapp
+
+import (
+	"context"
+
+	"go.brendoncarroll.net/p2p"
+)
+
+// Verification hooks, compiled only with -tags verif.
+
+// VerifHandleMessage feeds one inner datagram to the receive path synchronously.
+func VerifHandleMessage[A p2p.Addr, Pub any](ctx context.Context, s *Swarm[A, Pub], src, dst A, data []byte) error {
+	return s.handleMessage(ctx, src, dst, data)
+}
+
+// VerifNumCollectors reports how many partial messages are held.
+func VerifNumCollectors[A p2p.Addr, Pub any](s *Swarm[A, Pub]) int {
+	s.fragLayer.mu.Lock()
+	defer s.fragLayer.mu.Unlock()
+	return len(s.fragLayer.collectors)
+}
+
+func VerifSetDisableFastPath(v bool) { disableFastPath = v }
